@@ -92,8 +92,8 @@ def judge(ctx: Ctx, res: Dict[str, Any], oracle: Dict[str, Any]) -> List[str]:
             detail["PageFollows"] = {"url": obj.url, "expected": expected_url}
         # docstring cross-references by old and by new qualified name, from every module of the project
         for mk, m in list(system.allobjects.items()):
-            if not isinstance(m, model.Module):
-                continue
+            if not isinstance(m, (model.Module, model.Class, model.Function)):
+                continue                  # (from the docstring of every module, class and function of the project)
             for nm in (x["old"], x["new"]):
                 try:
                     got = m.docstring_linker._resolve_identifier_xref(nm, 0)
